@@ -34,9 +34,13 @@ What is proved: exactly this, for every Core program in `InPipeFragment` (`pipel
 * `fragLift` — `DirectFlow`, the hypothesis of `Lift.lift_preserves_partial` (C08).
 * `fragAnf` — `FileInAnfFragment`, the hypothesis of `C09.anf_run_preserves_partial` (C09).
 
-The back half: `end_to_end_partial` continues the chain to `Go.Sem` of the emitted file with
-`go/compile.rs` as the one named hypothesis `hcompile : CompileSim compile A` (another worker is
-modelling it) — see the doc comment there for what is and is not covered of `go/dce.rs`.
+The back half (added after `go/compile.rs` got its model, worker gocomp, and after `Go.Sem.zero`
+became total and `callG` got Go's arity rule): `core_to_go_preserves` (Core → compiled Go before
+DCE, fragment `InE2EFragment`) and **`core_to_emitted_go_preserves`** (Core → the emitted file,
+`eliminate_dead_vars` included, fragment `InEmitFragment`) have NO hypothesis besides their
+decidable fragment.  `end_to_end_partial` / `end_to_end_before_dce` keep the generic form with
+`CompileSim` / `DceFileSim` as parameters; both are now discharged
+(`compileSim_of_fragGo`, `dceFileSim_of_ok`).
 -/
 namespace Goml.Pipeline
 open Goml Goml.Sem
@@ -172,36 +176,24 @@ theorem pipeline_outcome_unique (i : PipeIn) (A : Prog) (hA : pipeline i = some 
   have e1 := hm (max m0 f2) (Nat.le_max_left _ _)
   rw [← run_stable h2 (Nat.le_max_right m0 f2), e1]
 
-/-! ## the back half: Go generation and dead-code elimination
+/-! ## the back half: Go generation and dead-code elimination — generic form
 
-`go/compile.rs` has no Lean model yet (worker `gocomp` is building one): it enters as the
-hypothesis `hcompile : CompileSim compile A` — a PARAMETER of the theorem, not an axiom.
-
-`go/dce.rs` has the per-block theorem `Dce.dce_preserves` (`Props/Dce.lean`: a definite `Go.Sem`
-run of a block is reproduced by its DCE'd form, callees looked up in the SAME file on both sides).
-It could not be chained, because C01 needs the statement for FILES, `runGo (eliminateDeadVars G)`
-against `runGo G`, and that lifting is not available:
- * `Go.Sem.zero` (zero value of a declared type, used by `var x T` and by composite literals)
-   is a `partial def` taking the file as an argument, i.e. an opaque constant of the logic, so
-   `zero G` and `zero (eliminateDeadVars G)` are unrelated terms although the struct declarations
-   they read are the same — no theorem can connect runs in two different files until `zero` is
-   made total (a change of the shared semantics `Model/GoSem.lean`, not made here);
- * `dce_preserves_body` wants `scopeErrs D (keys ρ) body = []` for the ACTUAL parameter
-   environment; `Go.Sem.callG` zips parameters with arguments, so a call through a function value
-   with too few arguments (impossible in typed Go, possible in the untyped `Go.Sem`) runs the body
-   in a smaller environment than the one the contract was checked for — the per-function contract
-   does not transfer to dynamic calls without an arity rule in `Go.Sem` or a re-proved block
-   theorem;
- * `prune_dead_functions` additionally needs the invariant that every function value reachable
-   from `main` names a function in the reachable set (`Dce.prune_funcs_closed` is its syntactic
-   half).
-So the file-level statement is the second, clearly marked hypothesis `hdce : DceFileSim G`; it is
-VALIDATED on every run by `./check dce` / `./check C09` (oracle `gosem`: `Go.Sem` of the real DCE
-output = `Go.Sem` of its input, per program).
-
-    -- full statement (the goal), with `compile`, `eliminateDeadVars` the models of the two passes:
-    -- theorem end_to_end : pipeline i = some A → Definite (Sem.run fuel i.prog) →
-    --   ∃ m, Go.runGo m (eliminateDeadVars (compile A)) = Sem.run fuel i.prog
+`end_to_end_partial` states the continuation to `Go.Sem` for ANY back-end model `compile` with the
+two links as parameters (not axioms): `hcompile : CompileSim compile A` and
+`hdce : DceFileSim (compile A)`.  Both are theorems now, for the models of `go/compile.rs` and
+`go/dce.rs`:
+ * `compileSim_of_fragGo` — from `GoCompileProps.compile_preserves_run` (worker gocomp), for the
+   composite's own re-annotated ANF (`annotFile_toFn`: erasing the annotations gives the ANF program
+   back);
+ * `dceFileSim_of_ok` — from `Dce.dce_file_preserves`, the FILE-level lifting of `dce_preserves`
+   (`Lemmas/GoFileSim.lean`: `Go.Sem` congruence for files whose function bodies forward-simulate;
+   `Lemmas/GoFilePrune.lean`: lock-step insensitivity to functions outside the reachable set, with
+   the invariant that no value contains such a function value; `Lemmas/DceFile{,2}.lean`).  The
+   three blockers recorded earlier were removed at the source: `Go.Sem.zero` is a total definition
+   that reads the file only through its struct declarations, `callG` with a wrong number of
+   arguments is `stuck` (Go's static arity rule), and the reachable-function-value invariant is
+   proved.
+The hypothesis-free statements are `core_to_go_preserves` and `core_to_emitted_go_preserves` below.
 -/
 open Goml.Go in
 /-- **end_to_end_partial.**  For every Core program in `InPipeFragment`, every definite `Sem` run of
